@@ -21,11 +21,11 @@ def replay(f):
     tmp = tempfile.mkdtemp(prefix="c18replay")
     try:
         with open(os.path.join(tmp, "a.py"), "w") as fh:
-            fh.write("x = 1\n")
+            fh.write("def f(p):\n    return p\nx = f(1)\n")
         p1 = rproject.Project(tmp, save_history=True, save_objectdb=True, automatic_soa=False)
         for i in range(w["nchanges"]):
             cs1 = change.ChangeSet("change %d" % i)
-            cs1.add_change(change.ChangeContents(p1.get_file("a.py"), "x = %d\n" % (i + 2)))
+            cs1.add_change(change.ChangeContents(p1.get_file("a.py"), "def f(p):\n    return p\nx = f(%d)\n" % (i + 2)))
             p1.do(cs1)
         p1.pycore.analyze_module(p1.get_file("a.py"))
         p1.close()
@@ -36,7 +36,7 @@ def replay(f):
             old[name] = open(path, "rb").read() if os.path.exists(path) else None
         p2 = rproject.Project(tmp, save_history=True, save_objectdb=True, automatic_soa=False)
         cs = change.ChangeSet("second session")
-        cs.add_change(change.ChangeContents(p2.get_file("a.py"), "y = 1\n"))
+        cs.add_change(change.ChangeContents(p2.get_file("a.py"), "def f(p):\n    return [p]\ny = f(1)\n"))
         p2.do(cs)
         p2.close()
         new_descs = [c.description for c in p2.history.undo_list]
